@@ -149,6 +149,8 @@ def strat_h5(tier):
         "meta": _meta(), "cycles": st.integers(1, 3), "ext": st.sampled_from([".h5", "", ".h5"]),
         "np_meta": st.sampled_from([None, None, None, "float32", "float16"]),
         "pol_dims": st.sampled_from([None, None, "vector_first"]),
+        # between two cycles: a new image of another dtype derived from the reloaded one (keeping its metadata)
+        "derive": st.sampled_from([None, None, "copy_data", "assign_values", "arithmetic"]),
     })
 
 
@@ -169,6 +171,25 @@ def run_h5(case):
     with tempfile.TemporaryDirectory() as td:
         for cyc in range(case["cycles"]):
             path = os.path.join(td, "stem%d%s" % (cyc, case["ext"]))
+            if cyc == 1 and case.get("derive"):
+                # the reloaded image (integer or float32 data) is processed into a float64 image: values / 3
+                newvals = cur.values.astype(np.float64) / 3.0
+                if case["derive"] == "copy_data":
+                    cur = cur.copy(data=newvals)
+                elif case["derive"] == "assign_values":
+                    cur = cur.copy()
+                    if cur.dtype == np.float64:
+                        cur.values = newvals
+                    else:
+                        cur = cur.copy(data=newvals)
+                else:
+                    nm_ = cur.name
+                    cur = cur / 3.0
+                    cur.attrs = im.attrs
+                    cur.name = nm_
+                im = cur.copy()
+                fp = det_fingerprint(im)
+                labels.append("derived_" + case["derive"])
             try:
                 hp.save(path, cur)
                 cur = hp.load(path)
@@ -419,6 +440,23 @@ def run_raster(case):
             return Outcome(failure("load_average_order", "noise_sd depends on file order"), True, labels)
         if avg.attrs.get("medium_index") != 1.33:
             return Outcome(failure("load_average_metadata", "medium_index not recorded"), True, labels)
+        # the same average taken on the grid of a reference image (same shape and pixel spacing, metadata from the image)
+        from holopy.core.metadata import data_grid
+        ref = data_grid(np.zeros((nx, ny)), spacing=spacing, medium_index=1.33, illum_wavelen=0.66, illum_polarization=(1, 0))
+        if min(nx, ny) < 2:
+            # the spacing of a reference image is read off its coordinates: one row or column has none
+            return Outcome(None, True, labels)
+        try:
+            avg3 = load_average(paths, refimg=ref)
+        except Exception as e:
+            return Outcome(failure("load_average_refimg_exception", "load_average(refimg=...) raises %s: %s" % (type(e).__name__, str(e)[:200]), exc=type(e).__name__), True, labels)
+        got3 = avg3.transpose("z", "x", "y").values[0]
+        if got3.shape != want.shape or not (np.abs(got3 - want).max() <= 1e-12 * np.abs(want).max() * TOLX):
+            return Outcome(failure("load_average_refimg_mean", "average on the grid of a reference image (spacing %r) differs from the pixelwise mean by %.3g"
+                                   % (list(spacing) if not np.isscalar(spacing) else spacing, np.abs(got3 - want).max() if got3.shape == want.shape else float("nan"))), True, labels)
+        if k > 1 and not (abs(float(np.asarray(avg3.attrs["noise_sd"])) - want_noise) <= 1e-10 * max(want_noise, 1e-12) * TOLX + 1e-14):
+            return Outcome(failure("load_average_refimg_noise", "noise_sd with a reference image %r, expected %r" % (float(np.asarray(avg3.attrs["noise_sd"])), want_noise)), True, labels)
+        labels.append("refimg")
         if not (np.allclose(avg.x.values, np.arange(nx) * sx, rtol=1e-14, atol=0) and np.allclose(avg.y.values, np.arange(ny) * sy, rtol=1e-14, atol=0)):
             return Outcome(failure("load_average_coordinates", "coordinates not i*spacing"), True, labels)
         # ---- history: the averaged image (whose noise level load_average stores array-valued) through HDF5
